@@ -1,6 +1,6 @@
 import SqfModel
 import SqfModel.Generated.Registry
-import SqfModel.VM.Run
+import SqfModel.VM.Sched
 import Driver.Proto
 import Std.Data.HashMap
 /-!
@@ -86,11 +86,30 @@ def verbRun (e : Env) (f : List (List Nat)) (trace : Bool) : List Nat :=
   | none => str "parse-error"
   | some prog => VM.observe prog globals maxSteps trace
 
+def verbStart (e : Env) (f : List (List Nat)) : List Nat :=
+  let text := f.headD []
+  let globals := match f[1]? with
+    | some g => if g.isEmpty then [] else splitOn 44 g
+    | none => []
+  let maxRuntime := match f[2]? with
+    | some s => if s.isEmpty then 0 else natOfBytes s
+    | none => 0
+  let maxLoops := match f[3]? with
+    | some s => if s.isEmpty then 10000 else natOfBytes s
+    | none => 10000
+  let age := match f[4]? with
+    | some s => if s.isEmpty then 0 else natOfBytes s
+    | none => 0
+  match assemble e.real text with
+  | none => str "parse-error"
+  | some prog => VM.observeStart prog globals maxRuntime maxLoops age
+
 def handle (e : Env) (verb : String) (f : List (List Nat)) : List Nat :=
   if verb == "asm" then verbAsm e f
   else if verb == "lex" then verbLex f
   else if verb == "run" then verbRun e f false
   else if verb == "trace" then verbRun e f true
+  else if verb == "start" then verbStart e f
   else str "bad-verb"
 
 partial def loop (e : Env) (h : IO.FS.Stream) (out : IO.FS.Stream) : IO Unit := do
